@@ -184,6 +184,15 @@ def theorem_coverage(ctx, ops_path):
             ctx.count("theorem.cold-start-in-class")
             if coldder != "1":
                 bad = "cold_start_eq_derive"
+        # the needResync clause: the real controller's needResync equals the model's line by line (differential); on a good
+        # history it holds only endpoints that still wait for a pod (needResync_no_leak)
+        if f.get("leak") == "1":
+            ctx.count("oracle.needresync.registration-for-a-pod-that-has-arrived(outside the class)" if good not in ("1", "s")
+                      else "oracle.needresync.leak-in-class")
+            if good in ("1", "s"):
+                bad = "needResync_no_leak"
+        else:
+            ctx.count("oracle.needresync.sound")
         if good == "1" and side == "1" and cold == "1" and nodes == "1":
             ctx.count("theorem.any_order_eq_cold_start-applies")
             if f.get("coldagree") != "1":
@@ -195,6 +204,125 @@ def theorem_coverage(ctx, ops_path):
                           {"stream": "order", "ops": c, "classify": v}, True)
         if der == "1":
             ctx.count("theorem.view-equals-derive")
+
+
+def feature_counters(ctx, ops_path):
+    """Branch counters: how many generated cases contain each of the combinations the anchored code distinguishes
+    (counted once per case; evidence counters gen.*)."""
+    from urllib.parse import unquote
+    for c in split_cases(ctx.read_lines(ops_path)):
+        pods, svcs, nss, slices = {}, {}, {}, {}
+        seen = set()
+        for l in c[1:]:
+            f = [unquote(t) for t in l.split()]
+            op = f[0]
+            if op == "hold":
+                seen.add("hold-window(stores ahead)")
+            elif op == "pod" and len(f) == 10:
+                k = (f[1], f[2])
+                ip, phase, ready, labels = ("" if f[3] == "~" else f[3]), f[4], f[5], f[7]
+                o = pods.get(k)
+                if o:
+                    if o["ip"] and ip and o["ip"] != ip:
+                        seen.add("pod-ip-change")
+                        if o["ready"] == "1" and ready == "0":
+                            seen.add("pod-ip-change-and-unready-in-one-write")
+                    if o["phase"] == "F" and phase == "R":
+                        seen.add("pod-failed-to-running")
+                    if ("@amb" in o["labels"]) != ("@amb" in labels):
+                        seen.add("pod-ambient-annotation-changed(labelFilter annotation arm)")
+                    if o["node"] != f[9]:
+                        seen.add("pod-node-changed-in-place")
+                elif not ip:
+                    seen.add("pod-first-event-without-ip")
+                if phase == "F":
+                    seen.add("pod-failed(field selector)")
+                for key, name in (("istio-locality", "pod-istio-locality-label"), ("@sub", "pod-hostname-subdomain"),
+                                  ("topology.istio.io/network", "pod-network-label")):
+                    if key in labels:
+                        seen.add(name)
+                pods[k] = {"ip": ip, "phase": phase, "ready": ready, "labels": labels, "node": f[9]}
+            elif op == "delpod" and len(f) == 3:
+                pods.pop((f[1], f[2]), None)
+            elif op == "svc" and len(f) == 7:
+                fl = [] if f[6] in ("-", "~") else f[6].split(",")
+                for key, name in (("x", "svc-exported-to-nobody"), ("std", "svc-spec-trafficDistribution"),
+                                  ("csa", "svc-canonical-serviceaccounts"), ("sa", "svc-kubernetes-serviceaccounts"),
+                                  ("eip", "svc-externalIPs"), ("nl", "svc-internalTrafficPolicy-Local"), ("drain", "svc-persistent-session"),
+                                  ("td", "svc-traffic-distribution-annotation")):
+                    if key in fl:
+                        seen.add(name)
+                if f[3] == "lb":
+                    seen.add("svc-LoadBalancer-with-ingress")
+                svcs[(f[1], f[2])] = fl
+            elif op == "delsvc" and len(f) == 3:
+                svcs.pop((f[1], f[2]), None)
+            elif op == "ns" and len(f) == 3:
+                if f[2] == "close" and any(k[0] == f[1] for k in svcs):
+                    seen.add("ns-annotated-while-holding-services")
+                nss[f[1]] = f[2]
+            elif op == "delns" and len(f) == 2:
+                if nss.get(f[1]) == "close" and any(k[0] == f[1] for k in svcs):
+                    seen.add("delns-of-annotated-namespace-holding-services")
+                nss.pop(f[1], None)
+            elif op == "slice" and len(f) == 7:
+                k = (f[1], f[2])
+                svc = "" if f[3] == "~" else f[3]
+                if svc.startswith("M:"):
+                    seen.add("slice-with-mcs-label")
+                    continue
+                o = slices.get(k)
+                if o and o["svc"] != svc:
+                    seen.add("slice-relabel")
+                if "nil:" in f[5] or f[5].endswith(":0") or ":0," in f[5]:
+                    seen.add("slice-nil-port-name-or-number")
+                if f[5] in ("-", "~"):
+                    seen.add("slice-without-ports")
+                if "/!" in f[6]:
+                    seen.add("endpoint-nonpod-targetref")
+                if "+" in f[6]:
+                    seen.add("endpoint-several-addresses")
+                if any(e.startswith("10.0.0.") and e.endswith("/-") for e in f[6].split(",")):
+                    seen.add("endpoint-without-targetref-at-pod-address")
+                slices[k] = {"svc": svc, "ports": f[5]}
+                sib = [v for kk, v in slices.items() if kk[0] == f[1] and v["svc"] == svc and svc]
+                if len(sib) >= 3:
+                    seen.add("three-slices-of-one-service")
+                if len({v["ports"] for v in sib}) >= 2:
+                    seen.add("sibling-slices-with-different-port-lists")
+            elif op == "delslice" and len(f) == 3:
+                slices.pop((f[1], f[2]), None)
+            elif op == "node" and len(f) == 4:
+                if "L:" in f[2] or "L:" in f[3]:
+                    seen.add("node-legacy-failure-domain-labels")
+                if "/" in f[3]:
+                    seen.add("node-subzone")
+        for x in seen:
+            ctx.count("gen." + x)
+
+
+def barrier_probe(ctx):
+    """The cold-start barrier of the real controller (Controller.Run / informersSynced): with the pod LIST refused, every
+    other informer synced and a task parked on the controller's queue, nothing may run until the pod informer has synced;
+    afterwards the view is the ordinary cold start's (harness/c15/barrier.go)."""
+    p = os.path.join(ctx.work, "barrier.in")
+    open(p, "w").write("barrier\n")
+    out = os.path.join(ctx.work, "barrier.out")
+    if os.path.exists(out):
+        os.remove(out)
+    rc, log = ctx.harness("barrier", "order", p, out)
+    lines = ctx.read_lines(out) if os.path.exists(out) else []
+    if rc != 0 or not lines:
+        ctx.tie_broken("barrier-probe", "the cold-start barrier probe did not run: " + log[-1500:])
+        return
+    ctx.count("oracle.cold-start-barrier.probes")
+    if lines[0].startswith("FAIL"):
+        clause = lines[0].split()[1]
+        ctx.violation("order:" + clause,
+                      "the real controller's event queue ran before every informer had synced (or ended differently from an "
+                      "ordinary cold start): theorem class (2) assumes the stores are full before the first handler runs",
+                      {"stream": "barrier", "probe": "harness/c15/barrier.go barrierObjects: pod LIST refused until the queue has "
+                       "been observed idle", "verdict": lines[0][:3000]}, True)
 
 
 def _oracle_fails(ctx, stream, lines, tag):
@@ -277,7 +405,8 @@ def run(ctx):
         return
     if not ctx.go_build():
         return
-    n = ctx.n(1000, 40000)
+    barrier_probe(ctx)
+    n = ctx.n(800, 40000)
     ctx.diff_stream("order", n, oracle=oracle)
     # the property itself on the real code, for the corpus and for every generated case
     cdir = os.path.join(os.path.dirname(os.path.dirname(os.path.abspath(__file__))), "harness", "corpus", "C15")
@@ -287,8 +416,19 @@ def run(ctx):
                 property_oracle(ctx, os.path.join(cdir, f), "corpus." + f[:-4])
     g = os.path.join(ctx.work, "order.gen.ops")
     if os.path.exists(g):
-        property_oracle(ctx, g, "order.gen")
+        # the property oracle runs five controllers per case: in the quick tier on the first 500 generated cases (the
+        # differential, the evaluated theorem instances and the counters cover all of them)
+        keep = ctx.n(500, 40000)
+        cs = split_cases(ctx.read_lines(g))
+        go = g
+        if len(cs) > keep:
+            go = os.path.join(ctx.work, "order.gen.oracle.ops")
+            with open(go, "w") as f:
+                for c in cs[:keep]:
+                    f.write("\n".join(c) + "\n")
+        property_oracle(ctx, go, "order.gen")
         theorem_coverage(ctx, g)
+        feature_counters(ctx, g)
 
 
 def replay(ctx, path):
@@ -327,27 +467,39 @@ MANIFEST = {
                    "interleaving of the per-kind streams, whose steps satisfy the explicit decidable conditions GoodStep - "
                    "handlers_preserve_inv, convergence_any_order (caches = handler-function of the current objects; podsByIP/ipByPods "
                    "= the running ready pods of the store, pod IP changes of a ready pod included; a slice seen BEFORE its pod waits "
-                   "through the pod's Pending events without IP and is repaired by the event that carries the address; a pod deleted "
-                   "before the slice controller drops its endpoint leaves that slice exempt until its next write), "
-                   "needResync_no_leak, convergence_to_derive (= the spec derive, exact endpoint list incl. conflicting duplicates), "
-                   "order_independent; (2) the cold start - all stores filled before the first handler runs, Add events in ANY order "
-                   "with Services before EndpointSlices - cold_start_inv, cold_start_eq_derive (derive is the model's own cold "
-                   "start), any_order_eq_cold_start (the property as stated: a good history shows what the cold start on its final "
-                   "objects shows). NOT covered by a theorem, only generated, run on model and real controller and compared with the "
-                   "cold start by the oracle: windows in which the stores run ahead of the handlers in the middle of a history "
-                   "(hold/release); Namespace writes that change the traffic-distribution annotation of a namespace holding Services "
-                   "(reprocessServicesInNamespace, fix 70cda90 - the theorems need the annotation unchanged or the namespace empty, and "
-                   "no namespace-wide annotation in the cold start); EndpointSlice writes that change the service-name label or the "
-                   "address type (fix 1e33f42); a pod whose IP changes in the same update in which it stops being ready; steps of the "
-                   "finding classes (label edit on a pod that is not ready, Node or Service learnt after the slice, ...). One witness "
-                   "theorem per order dependence the conditions exclude. The model is tied to /repo on every run by a line-by-line "
-                   "differential (exact endpoint lists) against a REAL controller on kube.NewFakeClient fed the same object history in "
-                   "the same interleaving, and the property itself (ordered run = cold start on the final objects) is evaluated on the "
-                   "real code for every case."),
+                   "through the pod's Pending events without IP and is repaired by the event that carries the address; a pod bound "
+                   "to its node after the slice was handled replays the slice; a pod deleted before the slice controller drops its "
+                   "endpoint leaves that slice exempt until its next write), needResync_no_leak, convergence_to_derive (= the spec "
+                   "derive, exact endpoint list incl. conflicting duplicates), order_independent; (2) the cold start - all stores "
+                   "filled before the first handler runs, Add events in ANY order with Services before EndpointSlices - "
+                   "cold_start_inv, cold_start_eq_derive (derive is the model's own cold start), any_order_eq_cold_start (a good "
+                   "history shows what the cold start on its final objects shows). CAVEAT on the conclusion: 'shows the same' is "
+                   "ViewAgree = same Service, same endpoint list, and the same service accounts ONLY for a hostname that has "
+                   "endpoints; for a hostname whose endpoint list is empty the service accounts are outside the conclusion - after "
+                   "the last endpoint goes the index keeps the old accounts, a cold start has none: that is the known finding "
+                   "accounts-kept-after-endpoints-removed (a history of the proved class, kernel-evaluated in Examples.lean), not "
+                   "something the theorems exclude; derive returns the Service of the store, which is what servicesMap holds only "
+                   "without a namespace-wide traffic-distribution annotation (hypothesis of every theorem that mentions derive). "
+                   "NOT covered by a theorem, only generated, run on model and real controller and compared with the cold start by "
+                   "the oracle: windows in which the stores run ahead of the handlers in the middle of a history (hold/release); "
+                   "Namespace writes that change the traffic-distribution annotation of a namespace holding Services "
+                   "(reprocessServicesInNamespace, fix 70cda90) and any namespace-wide annotation in the cold start; EndpointSlice "
+                   "writes that change the service-name label (fix 1e33f42); a pod whose IP changes in the same update in which it "
+                   "stops being ready; steps of the finding classes (label edit on a pod that is not ready, Node or Service learnt "
+                   "after the slice, ...). Never generated: a change of an EndpointSlice's address type (immutable in the Kubernetes "
+                   "API; the real controller keeps the old entry). That the REAL controller does not start its queue before every "
+                   "informer has synced (Controller.Run / informersSynced - the premise of class (2)) has no model: it is probed on "
+                   "every run with a gated pod list (harness/c15/barrier.go). One witness theorem per order dependence the "
+                   "conditions exclude. The model is tied to /repo on every run by a line-by-line differential (exact endpoint "
+                   "lists) against a REAL controller on kube.NewFakeClient fed the same object history in the same interleaving, and "
+                   "the property itself (ordered run = cold start on the final objects, endpoint and account SETS) is evaluated on "
+                   "the real code. Observed at the controller's Services() and at the EndpointIndex shard of this registry (what "
+                   "EDS generation reads), not at the EDS response for a proxy; pilot/pkg/serviceregistry/aggregate, NodePort "
+                   "gateway Services (onNodeEvent with node addresses) and network gateways are not covered."),
     "level_note": ("Trusted: Lean kernel + {propext, Classical.choice, Quot.sound}; the hand-written model (tied by differential testing); "
                    "two verif-tagged accessor files; the fake Kubernetes client with an emulated pod field selector. One registry only; "
                    "workload entries, MCS, multi-network not modelled; pilot/pkg/serviceregistry/aggregate (merging several registries) is not covered. The real controller is NOT confluent on all histories: the "
-                   "order dependences found are listed as findings (four repaired by fix: commits, the others known) and the "
+                   "order dependences found are listed as findings (five repaired by fix: commits, the others known) and the "
                    "convergence theorems carry explicit decidable hypotheses that exclude exactly those classes; a divergence of the "
                    "real controller is accepted as known only when the Lean model reproduces it AND names, as its cause, a step of "
                    "the history that violates the GoodStep clause of that class."),
